@@ -76,11 +76,11 @@ class Corpus:
                          "attrs_field": "none", "magic_ident": False, "fields": [], "variants": variants,
                          "max_items": 0, "max_attrs": 0, "alpha": []})
 
-    def variant(self, rust, style="unit", rename="", skip=False, word=False, t=None, fields=None, allow_unknown=False):
+    def variant(self, rust, style="unit", rename="", skip=False, word=False, t=None, fields=None, allow_unknown=False, wordf=False):
         sid = 0
         if style == "struct":
             sid = self.struct(fields, trait="variant", allow_unknown=allow_unknown)
-        return {"rust": rust, "rename": rename, "skip": skip, "word": word, "style": style,
+        return {"rust": rust, "rename": rename, "skip": skip, "word": word, "wordf": wordf, "style": style,
                 "ty": t or ty("val"), "sid": sid}
 
 
@@ -248,7 +248,7 @@ def build(seed, tier, focus='all'):
     leaf_fn = c.struct([field("x", V), field("flag", B, default="trait")], from_word=True, from_none=True)
     mid = c.struct([field("inner", ty("recv", leaf)), field("tag", V, default="fn")], rename_all="camelCase")
     deep = c.struct([field("mid_level", ty("recv", mid)), field("z", O)])
-    e_plain = c.enum([c.variant("Shout"), c.variant("Whisper"), c.variant("TalkLoud", rename="talk")])
+    e_plain = c.enum([c.variant("Shout", wordf=True), c.variant("Whisper"), c.variant("TalkLoud", rename="talk")])
     e_mixed = c.enum([
         c.variant("Off"),
         c.variant("Level", style="newtype", t=U),
@@ -424,6 +424,8 @@ def build(seed, tier, focus='all'):
                 cap = {1: 80, 2: 45, 3: 18}[d["max_items"]] if not elem else {1: 20, 2: 12, 3: 8}[d["max_items"]]
             if d.pop("deep", False):
                 cap = 3
+            if any(f["ty"]["k"] == "enum" for f in d["fields"]) and not elem:
+                cap = max(cap, 34)
             d["alpha"] = cap_alphabet(al, cap, rng)
     return c
 
@@ -468,7 +470,7 @@ def cap_alphabet(al, cap, rng):
     seen = set()
     specials = [it for it in al if it["k"] == "lit" or it["name"] == "zzz"]
     for it in al:
-        key = (it["name"], it["form"], it["val"][:1])
+        key = (it["name"], it["form"], it["val"], json.dumps(it["items"][:1], sort_keys=True)[:60])
         if key not in seen and it not in specials:
             seen.add(key)
             keep.append(it)
@@ -623,6 +625,8 @@ def render_enum(c, d, out):
             vo.append("skip")
         if v["word"]:
             vo.append("word")
+        if v["wordf"]:
+            vo.append("word = false")
         if vo:
             out.append("    #[darling(%s)]" % ", ".join(vo))
         if v["style"] == "unit":
